@@ -147,7 +147,12 @@ impl QueryTask {
             task.sender.send(Ok(QueryOutput {
                 colnames: task.output_colnames.clone(),
                 rows: Some(vec![]),
-                columns: Default::default(),
+                // One (empty) column per select item, same as a query that matches no rows
+                columns: task
+                    .output_colnames
+                    .iter()
+                    .map(|name| (name.clone(), BasicTypeColumn::Null(0)))
+                    .collect(),
                 query_plans: Default::default(),
                 stats: QueryStats {
                     runtime_ns: start_time.elapsed().as_nanos() as u64,
